@@ -378,7 +378,7 @@ class RegexPatternProvider(MorphingProvider):
 
             try:
                 return re_compile(data, flags)
-            except re.error as e:
+            except (re.error, OverflowError) as e:
                 raise ValueLoadError(str(e), data)
 
         return regex_loader
